@@ -158,6 +158,8 @@ def judge(prog: tuple, inject: tuple | None, refs: RefSet | None, real: Real, mo
             if lost:
                 sym = "cancel-lost"
             T = recs.get(label)
+            if sym == "cancel-lost" and T is not None and not any(e[0] == "exit" and e[2] for e in T.events):
+                sym += "/no-scope-cancelled"  # no cancelled scope took part: pure shield / task bookkeeping
             if label != "R" and T is not None and T.abort_info is not None:
                 found.append((f"group-abort-cancel/{situation(T.abort_info)}/{sym}", text))  # the group's cancel of this child
             elif kind == "timed":
@@ -181,7 +183,8 @@ def judge(prog: tuple, inject: tuple | None, refs: RefSet | None, real: Real, mo
             if completed:
                 bad.append(f"(ii) unshielded checkpoint(s) completed after the external cancel: {[e[1] for e in completed]}")
             if bad:
-                found.append(("external-cancel/" + situation(inj), "; ".join(bad) + f"; at injection: cancelling()={inj['cancelling_before']}, cancelled scopes {inj['scopes_cancel_called']}, "
+                tail = "" if any(e[0] == "exit" and e[2] for e in root.events) else "/no-scope-cancelled"
+                found.append(("external-cancel/" + situation(inj) + tail, "; ".join(bad) + f"; at injection: cancelling()={inj['cancelling_before']}, cancelled scopes {inj['scopes_cancel_called']}, "
                               f"task.cancelling() at end={root.task.cancelling()}"))
             if not need and outcome != "cancelled":
                 return found, "iter:" + outcome + "(no checkpoint left)"
